@@ -79,10 +79,13 @@ def evaluate(name, props, tier, budget):
     if o.strip():
         print('/repo is not clean; refusing')
         return 2
-    rc, o = sh(['git', '-C', '/repo', 'apply', os.path.join(dst, 'patch.diff')])
+    patch = os.path.join(dst, 'patch.rebased.diff')
+    if not os.path.exists(patch):
+        patch = os.path.join(dst, 'patch.diff')
+    rc, o = sh(['git', '-C', '/repo', 'apply', patch])
     if rc != 0:
         # /repo moved on (later fix: commits): fall back to a 3-way merge of the hunk
-        rc, o = sh(['git', '-C', '/repo', 'apply', '--3way', os.path.join(dst, 'patch.diff')])
+        rc, o = sh(['git', '-C', '/repo', 'apply', '--3way', patch])
         sh(['git', '-C', '/repo', 'reset', '-q'])
     if rc != 0:
         print('patch does not apply to /repo: %s' % o)
